@@ -168,6 +168,16 @@ func (cs *ContractSet) ParseFile(path string, pkg string, external bool) error {
 			last = nil
 			lastMacro = nil
 			continue
+		case strings.HasPrefix(line, "paramcontract "):
+			short := strings.TrimSpace(strings.TrimPrefix(line, "paramcontract "))
+			i := strings.LastIndex(short, ".")
+			full := qualify(pkg, short[:i]) + short[i:]
+			cur = &Contract{Func: full, Short: short, Pkg: pkg, File: path, Line: ln, External: external,
+				LoopInv: map[int][]*Clause{}, LoopDec: map[int][]*Clause{}, LoopMod: map[int][]*Clause{}, LoopUse: map[int][]*Clause{}}
+			cs.Field[full] = cur
+			last = nil
+			lastMacro = nil
+			continue
 		case strings.HasPrefix(line, "ghost "):
 			// ghost <name> <sort...>
 			rest := strings.TrimSpace(strings.TrimPrefix(line, "ghost "))
